@@ -1655,6 +1655,27 @@ pub fn f3i(rng: &mut Rng, per_group: usize, tries: usize) -> Vec<Pos> {
             out.push(p);
         }
     }
+    // in check with a promotion push as the only answer (the pawn steps onto the last rank between the checker and the
+    // king): what random search does not isolate. Four corners' worth by mirroring, both colours.
+    for fen in [
+        "r6K/6P1/5n2/8/8/8/8/k7 w - - 0 1",
+        "q6K/6P1/5n2/8/8/8/8/k7 w - - 0 1",
+        "r6K/6P1/8/8/8/3b4/8/k7 w - - 0 1",
+        "2r4K/6P1/5n2/8/8/8/8/k7 w - - 0 1",
+    ] {
+        if let Ok(r) = RawBoard::from_str(fen) {
+            for r1 in [r, crate::ops::mirror_raw_h(&r)] {
+                for r2 in [r1, mirror_raw_v(&r1)] {
+                    if let Some(p) = pos_of(r2, "F3i") {
+                        let ms = true_legal_moves(&p.board);
+                        if !ms.is_empty() && ms.iter().all(|m| move_group(&p.board, m) == "promo-push") {
+                            out.push(p);
+                        }
+                    }
+                }
+            }
+        }
+    }
     out
 }
 
